@@ -166,6 +166,24 @@ fn draw_pair(rng: &mut Rng, c: &CaseDesc, dmin: f64, dmax: f64, inclusive: bool,
     (lo, hi)
 }
 
+/// The arc "from the low hue to the high hue": hue ends are angles, so each is taken modulo a turn.
+/// If the low hue's positive normal form L is below the high hue's H the arc is [L, H] whatever the raw
+/// numbers are (low = 10, high = -10 is the arc from 10 up to 350). Otherwise the arc wraps through 0 and
+/// has to be written with ascending raw angles (350..370, -10..10, 0..360: a full turn when L = H);
+/// descending raw angles with L >= H are outside `rand`'s `low < high` contract and are never generated,
+/// except equal ends of an inclusive range (a single point). Returns (L, span).
+pub fn hue_arc(lo: f64, hi: f64) -> (f64, f64) {
+    let (l, h) = (lo.rem_euclid(360.0), hi.rem_euclid(360.0));
+    let span = if l < h {
+        h - l
+    } else if lo < hi {
+        h + 360.0 - l
+    } else {
+        0.0
+    };
+    (l, span)
+}
+
 fn draw_hue_pair(rng: &mut Rng, c: &CaseDesc, inclusive: bool, wide: bool) -> (f64, f64) {
     let lo = match rng.below(12) {
         0 => 0.0,
@@ -200,6 +218,19 @@ fn draw_hue_pair(rng: &mut Rng, c: &CaseDesc, inclusive: bool, wide: bool) -> (f
     }
     if hi <= lo && !(inclusive && span == 0.0) {
         hi = rt(c, lo + 1.0);
+    }
+    // Hue ends are angles: each may be written any number of turns away (10..-10 is the arc from 10 up
+    // to 350; 10..380 is the arc from 10 to 20). Only for arcs comfortably away from 0 and 360 degrees
+    // wide, so that rounding the shifted ends cannot change which way the arc is read.
+    if hi - lo >= 0.25 && hi - lo <= 359.5 && lo.abs() < 1500.0 && rng.chance(1, 3) {
+        let (k1, k2) = (rng.below(5) as f64 - 2.0, rng.below(5) as f64 - 2.0);
+        let (l2, h2) = (rt(c, lo + 360.0 * k1), rt(c, hi + 360.0 * k2));
+        let (nl, nh) = (l2.rem_euclid(360.0), h2.rem_euclid(360.0));
+        // in contract: a non-wrapping normalised arc in any raw order, a wrapping one only with ascending raw ends
+        let in_contract = if nl < nh { nh - nl >= 0.2 } else { l2 < h2 && nl - nh >= 0.2 };
+        if in_contract {
+            return (l2, h2);
+        }
     }
     (lo, hi)
 }
@@ -487,6 +518,8 @@ impl World for C19 {
                 "sample-equals-high-end-inclusive",
                 "hue-arc-wraps-through-0",
                 "hue-span-360",
+                "hue-ends-raw-descending",
+                "hue-raw-ends-more-than-a-turn-apart",
                 "hue-negative-raw",
                 "equal-ends-inclusive",
                 "hwb-ends-swapped",
@@ -573,9 +606,9 @@ impl<'d> Judge<'d> {
                     self.hit_hi |= x == hi;
                 }
                 Kind::Hue => {
-                    let span = hi - lo;
+                    let (l, span) = hue_arc(lo, hi);
                     let tol = 8.0 * c.eps * lo.abs().max(hi.abs()).max(720.0);
-                    let d = (x - lo).rem_euclid(360.0);
+                    let d = (x - l).rem_euclid(360.0);
                     let on_arc = span >= 360.0 || d <= span + tol || d >= 360.0 - tol;
                     if !on_arc {
                         return Err((
@@ -654,8 +687,12 @@ impl<'d> Judge<'d> {
             u[j] = match c.kinds[j] {
                 Kind::Lin | Kind::Alpha => lin(x, lo, hi),
                 Kind::Hue => {
-                    let span = hi - lo;
-                    ((x - lo).rem_euclid(360.0)) / span.min(360.0)
+                    let (l, span) = hue_arc(lo, hi);
+                    if span > 0.0 {
+                        ((x - l).rem_euclid(360.0)) / span.min(360.0)
+                    } else {
+                        0.5
+                    }
                 }
                 Kind::CylR => lin(x * x, lo * lo, hi * hi),
                 Kind::ConeR(_) => lin(x * x, lo * lo, hi * hi),
@@ -707,8 +744,14 @@ fn execute(c: &'static CaseDesc, plan: &Plan, ctx: &mut Ctx<'_>) {
             match c.kinds[j] {
                 Kind::Hue => {
                     let (l, h) = (rt(c, plo[j]), rt(c, phi[j]));
-                    if l.rem_euclid(360.0) + (h - l) > 360.0 {
+                    if l.rem_euclid(360.0) >= h.rem_euclid(360.0) && l < h {
                         ctx.probe("hue-arc-wraps-through-0");
+                    }
+                    if l > h {
+                        ctx.probe("hue-ends-raw-descending");
+                    }
+                    if h - l > 360.0 {
+                        ctx.probe("hue-raw-ends-more-than-a-turn-apart");
                     }
                     if h - l == 360.0 {
                         ctx.probe("hue-span-360");
